@@ -217,7 +217,16 @@ impl S {
                     }
                     self.p.settle().await;
                 }
-                for i in signers {
+                // Sometimes the first authority times out twice in that round: first with an older QC, then
+                // (having learned the newest one) again. Its stake counts once.
+                let twice = self.rng.gen_bool(0.3) && hq.round > 0 && self.tip.qc.round < hq.round;
+                for (n, i) in signers.into_iter().enumerate() {
+                    if n == 0 && twice {
+                        self.act(format!("authority {} times out twice in r{} (QC r{}, then QC r{})", i, round - 1, self.tip.qc.round, hq.round));
+                        let t0 = self.p.mk_timeout(i, round - 1, self.tip.qc.clone());
+                        self.send(i, ConsensusMessage::Timeout(t0)).await;
+                        self.p.settle().await;
+                    }
                     let t = self.p.mk_timeout(i, round - 1, hq.clone());
                     self.send(i, ConsensusMessage::Timeout(t)).await;
                     if self.rng.gen_bool(0.3) {
@@ -394,9 +403,40 @@ async fn random_script(s: &mut S, steps: usize) {
                 let round = s.cur;
                 let leader = s.p.leader(round);
                 if leader != s.p.r {
-                    let kind = s.rng.gen_range(0, 6);
+                    let kind = s.rng.gen_range(0, 7);
                     let hi = s.tip_qc.clone();
                     let b = match kind {
+                        6 => {
+                            // "inverted" proposal, two steps. (i) A block X of a future round from its
+                            // rightful leader on the tip, with a gap and NO TC: the node stores it but must
+                            // not vote for it. (ii) The puppets certify X all the same, and the leader of a
+                            // round r2 <= X.round proposes a block of round r2 that carries QC(X) and a valid
+                            // TC(r2-1): a block whose QC is not of a lower round than the block itself.
+                            let mut far = round + s.rng.gen_range(2, 5);
+                            while s.p.leader(far) == s.p.r {
+                                far += 1;
+                            }
+                            let x = s.p.mk_block(s.p.leader(far), far, hi.clone(), None, vec![]);
+                            s.act(format!("proposal r{} with gap and no TC (certified afterwards)", far));
+                            s.deliver(&x).await;
+                            s.settle().await;
+                            let cands: Vec<u64> = (round.max(2)..=far).filter(|r| s.p.leader(*r) != s.p.r).collect();
+                            match (s.certify(&x), cands.choose(&mut s.rng).cloned()) {
+                                (Some(qcx), Some(r2)) => {
+                                    let max_hq = s.rng.gen_range(0, hi.round + 1);
+                                    let tc = s.tc_for(r2 - 1, max_hq);
+                                    let b = s.p.mk_block(s.p.leader(r2), r2, qcx.clone(), Some(tc), vec![]);
+                                    s.act(format!("proposal r{} carrying the QC of r{} (not a lower round) and TC r{}", r2, far, r2 - 1));
+                                    // X is the certified tip from now on.
+                                    s.all.push(x.clone());
+                                    s.tip = x;
+                                    s.tip_qc = qcx;
+                                    s.cur = far + 1;
+                                    b
+                                }
+                                _ => x,
+                            }
+                        }
                         0 => {
                             // gap and no TC
                             let far = round + s.rng.gen_range(1, 3) * s.p.topo.n as u64;
@@ -846,6 +886,62 @@ async fn directed(s: &mut S, class: &str) {
             s.answer_sync_prob = 1.0;
             s.settle().await;
             for _ in 0..4 {
+                s.advance(vec![], true).await;
+            }
+        }
+        // D21: a correctly led but INVALID proposal (below-quorum / bit-flipped QC for the still uncertified
+        // tip, or a flipped block signature) that also references a batch the node lacks; the batch arrives
+        // later (payload-resumed path) and no valid version of the proposal is ever sent. The node must not
+        // vote for it and must not commit through its certificate.
+        "d21" => {
+            for _ in 0..3 {
+                s.advance(vec![], true).await;
+            }
+            for variant in 0..3 {
+                let mut guard = 0;
+                while s.p.leader(s.cur + 1) == s.p.r && guard < 4 {
+                    s.advance(vec![], true).await;
+                    guard += 1;
+                }
+                // b1 on top of b0 (consecutive rounds); its QC stays with the puppets for now.
+                s.advance(vec![], true).await;
+                let round = s.cur;
+                let leader = s.p.leader(round);
+                if leader == s.p.r || s.tip.round + 1 != round || s.tip_qc.votes.len() < 2 {
+                    continue;
+                }
+                let d = rand_digest(&mut s.rng);
+                let mut qc = s.tip_qc.clone();
+                let mut flip_block_sig = false;
+                match variant {
+                    0 => qc.votes.truncate(1),
+                    1 => {
+                        let k = s.rng.gen_range(0, qc.votes.len());
+                        let mut bytes = bincode::serialize(&qc.votes[k].1).unwrap();
+                        let bit = s.rng.gen_range(0, 504);
+                        bytes[bit / 8] ^= 1 << (bit % 8);
+                        qc.votes[k].1 = bincode::deserialize(&bytes).unwrap();
+                    }
+                    _ => flip_block_sig = true,
+                }
+                let mut bad = Block { qc, tc: None, author: s.p.name(leader), round, payload: vec![d.clone()], signature: crypto::Signature::default() };
+                bad.signature = s.p.topo.sign(leader, &bad.digest());
+                if flip_block_sig {
+                    let mut bytes = bincode::serialize(&bad.signature).unwrap();
+                    let bit = s.rng.gen_range(0, 504);
+                    bytes[bit / 8] ^= 1 << (bit % 8);
+                    bad.signature = bincode::deserialize(&bytes).unwrap();
+                }
+                s.act(format!("invalid variant (fresh): round-{} proposal by its leader, {} and a batch the node lacks", round, ["QC below quorum", "QC with a flipped signature bit", "block signature bit flipped"][variant]));
+                s.p.send(leader, &ConsensusMessage::Propose(bad)).await;
+                s.settle().await;
+                s.p.wait_ms(30).await;
+                s.act("batch arrives");
+                s.p.store_batch(&d).await;
+                s.settle().await;
+                s.p.wait_ms(30).await;
+                // the genuine proposal of that round (other payload, hence another digest) follows
+                s.advance(vec![], true).await;
                 s.advance(vec![], true).await;
             }
         }
